@@ -722,6 +722,57 @@ func propC09(r *Run, w *World) {
 		// normalizeCompound passes (special, syscall) where special is msgs[0] when it is not a SYSCALL
 		calls := callsIn(x.normCompound, x.newEvent)
 		r.Check(len(calls) == 1, "normalizeCompound → newEvent once", x.normCompound.Pos(), "", fmt.Sprintf("%d calls", len(calls)))
+		// the first argument is the leading record whenever that is not the SYSCALL record: the
+		// only conditions under which the loop-carried `special` takes the range element are
+		// "first element" and "not a SYSCALL record"
+		if len(calls) == 1 {
+			arg := calls[0].Common().Args[0]
+			var phis []*ssa.Phi
+			var collect func(v ssa.Value, depth int)
+			seenPhi := map[*ssa.Phi]bool{}
+			collect = func(v ssa.Value, depth int) {
+				if ph, ok := v.(*ssa.Phi); ok && !seenPhi[ph] && depth < 6 {
+					seenPhi[ph] = true
+					phis = append(phis, ph)
+					for _, e := range ph.Edges {
+						collect(e, depth+1)
+					}
+				}
+			}
+			collect(arg, 0)
+			nTake := 0
+			for _, ph := range phis {
+				for i, e := range ph.Edges {
+					if _, isPhi := e.(*ssa.Phi); isPhi || isNilConst(e) {
+						continue
+					}
+					nTake++
+					from := ph.Block().Preds[i]
+					var extra []string
+					first, notSys := false, false
+					gs := GuardsAt(from)
+					if ifi, ok := from.Instrs[len(from.Instrs)-1].(*ssa.If); ok {
+						// the edge itself may be one arm of a test ending the block
+						gs = append(gs, Guard{Cond: ifi.Cond, Pol: from.Succs[0] == ph.Block(), If: ifi})
+					}
+					for _, g := range gs {
+						l := g.String()
+						switch {
+						case strings.Contains(l, "== 0") && !strings.Contains(l, "RecordType") && !strings.Contains(l, "len("):
+							first = true
+						case strings.Contains(l, ".RecordType != 1300"):
+							notSys = true
+						case strings.Contains(l, "< len(") || strings.HasPrefix(l, "rangeok") || strings.Contains(l, "next("):
+						default:
+							extra = append(extra, l)
+						}
+					}
+					r.Check(first && notSys && len(extra) == 0 && strings.Contains(Term(e), "p0["), "normalizeCompound special ← "+Term(e), x.normCompound.Pos(), "taken under first-element && not-SYSCALL only",
+						fmt.Sprintf("the record that gives the event its timestamp, sequence and type is taken from %s under the conditions %v (first=%v notSyscall=%v, additional: %v): a leading non-SYSCALL record is then not always the event's identity", Term(e), GuardLits(from), first, notSys, extra))
+				}
+			}
+			r.Check(nTake >= 1, "normalizeCompound special source", x.normCompound.Pos(), "", "the first argument of newEvent is never set from a record")
+		}
 	}
 }
 
@@ -906,6 +957,36 @@ func propC15(r *Run, w *World) {
 			r.Fail(fmt.Sprintf("%s %s on normalisation tables", fnName(m.Fn), m.Kind), m.Instr.Pos(), m.Kind+" on "+Term(m.On)+", which is reachable from the global normalisation tables ("+tg.Why[m.On]+")")
 		}
 		r.OK("normalisation tables: mutation census", x.applyNorm.Pos(), fmt.Sprintf("%d functions reachable, %d mutations", len(reach), len(gm)))
+		// the same for every other package-level variable: an event must not hold (and later
+		// write through) a pointer that another event holds too. The ID caches are exempt: they
+		// are meant to be shared and their discipline is R3.
+		isAnyG := func(v ssa.Value) bool {
+			u, ok := v.(*ssa.UnOp)
+			if !ok || u.Op != token.MUL {
+				return false
+			}
+			g, ok := u.X.(*ssa.Global)
+			if !ok || g.Pkg == nil || !w.inPkg(reach[0], "aucoalesce") || g.Pkg != reach[0].Pkg {
+				return false
+			}
+			if g.Name() == "syscallNorms" || g.Name() == "recordTypeNorms" {
+				return false
+			}
+			if strings.Contains(typeStr(u.Type()), "stringCache") || strings.Contains(typeStr(u.Type()), "EntityCache") {
+				return false
+			}
+			switch u.Type().Underlying().(type) {
+			case *types.Pointer, *types.Map, *types.Slice:
+				return true
+			}
+			return false
+		}
+		ta := w.TaintFrom(reach, isAnyG)
+		am := ta.Mutations(reach, false)
+		for _, m := range am {
+			r.Fail(fmt.Sprintf("%s %s on shared package-level value", fnName(m.Fn), m.Kind), m.Instr.Pos(), m.Kind+" on "+Term(m.On)+", which is reachable from a package-level variable ("+ta.Why[m.On]+"): every event that was handed the same value changes with it, including events returned earlier")
+		}
+		r.OK("package-level values: mutation census", x.applyNorm.Pos(), fmt.Sprintf("%d mutations through values loaded from package-level variables", len(am)))
 	}
 
 	// R6
